@@ -1276,3 +1276,88 @@ def sound_replay(case):
     prog = [tuple(s) for s in case["prog"]]
     st, vs = sound_analyse(prog, case.get("p", REC.BN128), case.get("mode", "plain"))
     return {"violations": [{"sig": x["sig"], "what": x["what"]} for x in vs]}
+
+
+# ------------------------------------------------------------------------------------------------ declarations are enforced (C03 / C15 / C16)
+
+DECL_OPS = {"assert_lt": "C03", "assert_eq": "C03", "assert_ne": "C03", "assert_le": "C03", "arr_assert_eq": "C03", "tobits3": "C16",
+            "pack_bi": "C16", "unpack_bi": "C16", "repack": "C16", "get": "C15", "set": "C15", "lazy_get": "C15", "lazy_bits": "C16"}
+
+
+def decl_analyse(prog, p, pid):
+    """For every input vector on which the reference REFUSES a declaring statement (false assertion, value outside the declared
+    width, index outside the array): the system recorded by an ignore-errors run, with the inputs pinned, must have no solution."""
+    from . import witness as W
+    st = {"decl_instances": 0, "decl_undecided": 0, "decl_capped": 0, "decl_unsat_confirmed": 0}
+    viols = []
+    if not any(DECL_OPS.get(s[0]) == pid for s in prog) or any(s[0] in ("ign_on", "bitlen_up") or s[0] in UNSOUND_KNOWN for s in prog):
+        return st, viols      # (programs through the unconstrained quotient of // and % are the known finding KF-C02-quotient)
+    ps = prog_str(prog)
+    for vec in vectors(prog, SMALL_DOMAINS):
+        ref = ref_execute(prog, vec)
+        k = next((j for j, (kind, _) in enumerate(ref) if kind in ("raise", "any")), None)
+        if k is None or ref[k][0] != "raise" or DECL_OPS.get(prog[k][0]) != pid:
+            continue
+        r = execute(prog, vec, "ign", keep=True)
+        if r.status != "ok":
+            continue
+        cons, nvars = list(H.R.cons), len(H.R.vars)
+        asg = {i + 1: v[1] % p for i, v in enumerate(H.R.vars)}
+        fixed = {i: asg[i] for i in range(1, NIN + 1)}
+        st["decl_instances"] += 1
+        try:
+            sols, undec, s = W.exact(cons, nvars, fixed, p)
+        except W.Capped:
+            st["decl_capped"] += 1
+            continue
+        if undec:
+            st["decl_undecided"] += 1
+            continue
+        if not sols:
+            st["decl_unsat_confirmed"] += 1
+            continue
+        sig = {"klass": "refused-value-provable", "op": prog[k][0], "ops": [s_[0] for s_ in prog], "engine": "xfeat"}
+        viols.append({"sig": sig, "what": "cross-feature program [%s] on (x,y,b,f,i)=%s: statement %d (%s) must refuse these values, yet the constraints "
+                                          "recorded by an unchecked run are satisfiable with the inputs pinned (%d solution families)" % (ps, list(vec), k, prog[k][0], len(sols)),
+                      "case": {"xfeat": True, "decl": True, "prog": [list(s_) for s_ in prog], "vec": list(vec), "p": p, "pid": pid}})
+        break
+    return st, viols
+
+
+def _decl_task(t):
+    progs, p, pid = t
+    agg, viols = {}, {}
+    for prog in progs:
+        st, vs = decl_analyse(prog, p, pid)
+        common.merge_counts(agg, st)
+        for x in vs:
+            h = common.sig_hash(x["sig"])
+            if h not in viols:
+                x["count"] = 1
+                viols[h] = x
+            else:
+                viols[h]["count"] += 1
+    return agg, list(viols.values())
+
+
+def decl_sweep(ctx, pid):
+    progs = [pr for pr in programs(ctx) if any(DECL_OPS.get(s[0]) == pid for s in pr)]
+    per = max(1, len(progs) // (common.NCPU * 8))
+    chunks = [(progs[i:i + per], REC.BN128, pid) for i in range(0, len(progs), per)]
+    results = common.pool_map(_decl_task, chunks, init=_init, initargs=(REC.BN128,), force_fork=True)
+    agg = {}
+    for st, vs in results:
+        common.merge_counts(agg, st)
+        for x in vs:
+            ctx.violations.append({"sig": x["sig"], "case": x["case"], "what": x["what"] + " (x%d)" % x.get("count", 1)})
+    for k, v in agg.items():
+        ctx.add("xfeat_" + k, v)
+    ctx.add("executions", agg.get("decl_instances", 0))
+    return agg
+
+
+def decl_replay(case):
+    H.bind(case.get("p", REC.BN128))
+    prog = [tuple(s) for s in case["prog"]]
+    st, vs = decl_analyse(prog, case.get("p", REC.BN128), case["pid"])
+    return {"violations": [{"sig": x["sig"], "what": x["what"]} for x in vs]}
